@@ -68,6 +68,9 @@ type proxyProc struct {
 // their interval, so one of the runs uses slow ones
 var hostileHeartbeat, hostileIdle = "300ms", "3s"
 
+// hostileDebug: the proxy under test runs with --debug (development logger)
+var hostileDebug bool
+
 func startProxy(bin string, c *fakecql.Cluster, ip string, maxVersion string, extra ...string) (*proxyProc, error) {
 	l, err := net.Listen("tcp", "127.0.0.1:0")
 	if err != nil {
@@ -83,6 +86,9 @@ func startProxy(bin string, c *fakecql.Cluster, ip string, maxVersion string, ex
 		p.cmd.Args = append(p.cmd.Args, "--protocol-version", "v3")
 	}
 	p.cmd.Args = append(p.cmd.Args, extra...)
+	if hostileDebug {
+		p.cmd.Args = append(p.cmd.Args, "--debug")
+	}
 	p.cmd.Stderr = &lockedWriter{w: p.stderr, mu: &p.mu}
 	p.cmd.Stdout = io.Discard
 	if err := p.cmd.Start(); err != nil {
@@ -421,6 +427,10 @@ func hostileBytes(class string, rnd *rand.Rand, v primitive.ProtocolVersion) (pr
 	case "hostile_auth":
 		return "startup", "", encodeFrame(frame.NewFrame(v, 1, &message.AuthResponse{Token: []byte("x")}))
 	}
+	if class == "b_prepare_wrong_result" {
+		// a forwarded PREPARE; the backend answers it with a RESULT that is not PREPARED
+		return "startup", "", encodeFrame(frame.NewFrame(v, 1, &message.Prepare{Query: "SELECT * FROM ks.t WHERE k = 'tokHb_prepare_wrong_result;'"}))
+	}
 	// backend classes: a tokenised idempotent query; the fake backend misbehaves when it sees the token
 	return "startup", "", validQuery(v, 1, fmt.Sprintf("SELECT * FROM ks.t WHERE k = 'tokH%s;'", class))
 }
@@ -464,6 +474,19 @@ func hostileScript(rnd *rand.Rand, mu *sync.Mutex) func(a *fakecql.Attempt) fake
 				return fakecql.Outcome{Kind: fakecql.RawReply, Raw: append(ok, extra...)}
 			}
 			return fakecql.Outcome{Kind: fakecql.RawReply, Raw: append(extra, ok...)}
+		case "b_prepare_wrong_result":
+			// RESULT kinds that do not belong to a PREPARE: Void, SetKeyspace, Rows without columns, SchemaChange, a
+			// PREPARED body cut short, an unknown kind
+			bodies := [][]byte{
+				{0, 0, 0, 1},
+				{0, 0, 0, 3, 0, 2, 'k', 's'},
+				{0, 0, 0, 2, 0, 0, 0, 4, 0, 0, 0, 0, 0, 0, 0, 0},
+				{0, 0, 0, 5, 0, 7, 'C', 'R', 'E', 'A', 'T', 'E', 'D', 0, 8, 'K', 'E', 'Y', 'S', 'P', 'A', 'C', 'E', 0, 2, 'k', 's'},
+				{0, 0, 0, 4, 0, 16, 1, 2, 3},
+				{0, 0, 0, 9},
+			}
+			body := bodies[rnd.Intn(len(bodies))]
+			return fakecql.Outcome{Kind: fakecql.RawReply, Raw: rawFrame(ver, 0, st, 0x08, body, int32(len(body)))}
 		case "b_wrong_opcode":
 			op := []byte{0x02, 0x06, 0x03, 0x10, 0x0E, 0x07, 0x01}[rnd.Intn(7)]
 			return fakecql.Outcome{Kind: fakecql.RawReply, Raw: rawFrame(ver, 0, st, op, nil, 0)}
@@ -574,6 +597,7 @@ func init() {
 		reps := fs.Int("reps", 2, "concrete representatives per class occurrence")
 		fs.StringVar(&hostileHeartbeat, "heartbeat", "300ms", "--heartbeat-interval of the proxy")
 		fs.StringVar(&hostileIdle, "idle", "3s", "--idle-timeout of the proxy")
+		fs.BoolVar(&hostileDebug, "debug", false, "run the proxy with --debug")
 		_ = fs.Parse(args)
 		res := &hostileResult{PerClass: map[string]int{}, Outcomes: map[string]int{}, MaxVer: *maxv}
 		t := tracer.New()
